@@ -116,9 +116,13 @@ CLAIMS = {
         "invariant (everything indexed is in the map; offsets strictly increasing, 8-aligned, past the header, each event within the end marker; ids "
         "unique) holds in every reachable state; a successful store's offset reads back the stored event immediately and after any continuation "
         "without rebuild (refused stores, file growth, removals included); every retrievable event reads back by id and by offset as itself; a "
-        "new offset is beyond all earlier ones (never reused); reopen is the identity. Correspondence: histories with event sizes 0 B..3 map chunks, "
-        "every returned offset and every id re-read after every step on the real store vs model; direct oracle: bytes equal an independent Python "
-        "encoding of what was submitted.",
+        "new offset is beyond all earlier ones (never reused); reopen is the identity. THE MAP FILE (map_store, map_reopen; Model/EventMap.lean: file length, persisted end "
+        "marker, remembered length and mapping length, the alignment padding, the grow-and-retry loop, set_len modelled as setting the length EXACTLY, i.e. truncating when smaller): "
+        "on a consistent map an append never fails, returns the 8-aligned old end, advances the end by exactly the event's size and leaves the file at least as long as before; "
+        "reopening finds the same end and the real length, also when the map is full to its last byte. DELINEATION ON READ (delineate_ignores_what_follows): the event is cut "
+        "out exactly however many bytes (4 GiB and more) of later events lie behind it. Correspondence: histories with event sizes 0 B..3 map chunks and exact-fit events, "
+        "every returned offset and every id re-read after every step on the real store vs model, the map file's length vs the model's after every step incl. reopen and rebuild; "
+        "Event::delineate on slices continuing 0..3x4 GiB behind the event; direct oracle: bytes equal an independent Python encoding of what was submitted; the file never shrinks.",
    note=PROOF_NOTE + 'Modelled, not verified: LMDB (ordered maps, snapshot reads inside a write transaction, atomic commit), the mmap-append event map; the seven index tables are modelled as functions of the set of indexed events with range scans as filter+key-order sort. ' + "'Forever' across process restarts relies on the kernel keeping file contents (modelled).",
    technique="Lean 4 proof (invariant by induction over operation sequences) + differential correspondence with a byte-level direct oracle",
    design="6/C04"),
@@ -212,9 +216,13 @@ CLAIMS = {
         "marker moved, index committed) satisfies the store invariant (every index entry leads to a complete event inside the end marker), keeps every earlier "
         "offset readable, and has tables equal to those before or after the call - never in between; likewise remove_event; a killed vanish leaves a subset of "
         "its targets gone and nothing else; whatever state store creation is killed in (absent / empty / sized without header / initialised) the next open "
-        "starts from an empty initialised map. Fault enumeration on the real code through the verif hooks: for each step of each history and each named point "
+        "starts from an empty initialised map. THE MAP FILE THROUGH A KILL (store_kill_map_states, creation_map_states): whatever durable (file length, end marker) pair a kill "
+        "inside store_event leaves - before/after the padding, after any number of set_len growth rounds, after the append - the file is at least as long as before, the marker is the "
+        "old, the aligned or the final one and lies inside the file; the next open succeeds with that marker and the real length, and every later store can only extend the file. "
+        "Fault enumeration on the real code through the verif hooks: for each step of each history and each named point "
         "and occurrence a child dies there by _exit (incl. mid-copy and during file growth), the parent reopens, compares the battery with the model's "
-        "before/after states, and continues the history; the points hit per call are compared with the model's micro-step list.",
+        "before/after states, and continues the history (after a kill in the growth path long enough for two more growth rounds); the (file length, end) pair found after the reopen "
+        "must be one of the model's durable states; the points hit per call are compared with the model's micro-step list.",
    note=PROOF_NOTE + 'Modelled, not verified: LMDB (ordered maps, snapshot reads inside a write transaction, atomic commit), the mmap-append event map; the seven index tables are modelled as functions of the set of indexed events with range scans as filter+key-order sort. ' + "PARTIAL: process kill only (page cache survives); LMDB's commit atomicity, the kernel and the absence of compiler/CPU reordering across the SeqCst fence are trusted; torn 8-byte marker stores are not modelled.",
    technique="Lean 4 proof (invariant over micro-step prefixes) + fault enumeration at named kill points with reopen-and-compare",
    design="6/C13"),
